@@ -106,6 +106,18 @@ def concurrent_create_cases():
     return out
 
 
+def free_open_race_cases():
+    """an OPEN-mode p_semaphore_new racing with the owner's free of the same name (every schedule prefix of length 6):
+    the statement quantifies over concurrent acquirers / releasers only, so the spec column does not judge these (on the
+    unchanged code the OPEN fails with ENOENT when the unlink lands between its two sem_open calls); the implementation is
+    compared with the model system call by system call"""
+    out = []
+    for bits in itertools.product("ab", repeat=6):
+        s = "".join(bits)
+        out.append(["0 new-sem 0 s0 2 OPEN", "par %s 0 free 0 ; 1 new-sem 1 s0 3 OPEN" % s, "obs", "1 rel 1", "obs"])
+    return out
+
+
 def run(chk):
     cfg = pv.repo_config()
     proof_ok, driver_ok, detail = pv.proof_stage(chk, ["PV.Props.C06"])
@@ -143,6 +155,9 @@ def run(chk):
     conc = [ipc.prefilter(c) for c in concurrent_create_cases()]
     chk.cov["concurrent_create_schedules_model_tie_only"] = len(conc)
     R.run_model_only(conc)
+    race = [ipc.prefilter(c) for c in free_open_race_cases()]
+    chk.cov["free_open_race_schedules_model_tie_only"] = len(race)
+    R.run_model_only(race)      # new / free racing each other is outside the statement's quantifier (like concurrent CREATE): syscall-exact tie only
     # real processes blocking in p_semaphore_acquire and woken by releases of the others (quick: short runs)
     for (n, v, it) in (((6, 1, 3000), (8, 3, 3000), (12, 2, 1500)) if thorough else ((3, 1, 400), (6, 2, 300))):
         ipc.run_stress(chk, exe, ["stress-sem", n, v, it], "C06 v-exclusion stress")
